@@ -140,7 +140,7 @@ PAT_PSEUDO_CLOSE = fr'{WSC}*\)'
 # Pseudo element (`::pseudo-element`)
 PAT_PSEUDO_ELEMENT = fr':{PAT_PSEUDO_CLASS}'
 # At rule (`@page`, etc.) (not supported)
-PAT_AT_RULE = fr'@P{IDENTIFIER}'
+PAT_AT_RULE = fr'@{IDENTIFIER}'
 # Pseudo class `nth-child` (`:nth-child(an+b [of S]?)`, `:first-child`, etc.)
 PAT_PSEUDO_NTH_CHILD = fr'''
 (?P<pseudo_nth_child>{PAT_PSEUDO_CLASS_SPECIAL}
